@@ -17,6 +17,7 @@ if [ "$SW" != "-" ]; then
   (cd $SW && git status --porcelain --untracked-files=all | awk '$1=="??"{print $2}' | grep -v '^SEED/' | grep -v '^target/' | grep -v '^\.verif' ) > $OUT/demo_files.txt
   while read -r f; do [ -n "$f" ] && mkdir -p $OUT/demo_tree/$(dirname $f) && cp $SW/$f $OUT/demo_tree/$f; done < $OUT/demo_files.txt
   echo "$SW" > $OUT/seed_worktree.txt
+  mkdir -p $OUT/demo_src; cp -r $SW/SEED/demo/. $OUT/demo_src/ 2>/dev/null
 fi
 ORIG_SW=$(cat $OUT/seed_worktree.txt 2>/dev/null || echo /nonexistent)
 HEAD=$(git -C /repo rev-parse HEAD)
@@ -34,15 +35,18 @@ if [ -n "${SEED_CHECKS_ONLY:-}" ]; then
   git -C $V checkout -q -- .
   exit 0
 fi
-: > $OUT/verification.txt
+KEEP=""
+[ -n "${SEED_SKIP_BASELINE:-}" ] && KEEP=$(grep -E "^baseline_with_patch|^unexpected_failures|^rerun_timed_out" $OUT/verification.txt 2>/dev/null)
+[ -z "${SEED_DEMO_ONLY:-}" ] && : > $OUT/verification.txt
 res "repo_head=$HEAD"
+[ -n "$KEEP" ] && res "$KEEP"
 if ! git -C $V apply --check $OUT/patch.diff 2>$OUT/apply.err; then res "apply=FAILED"; exit 1; fi
 git -C $V apply $OUT/patch.diff; res "apply=ok"
 res "patch_files=$(git -C $V diff --name-only | tr '\n' ' ')"
 res "demo_files=$(cd $OUT/demo_tree && find . -type f | sed 's#^\./##' | tr '\n' ' ')"
 export CARGO_TARGET_DIR=$V/target CARGO_PROFILE_DEV_DEBUG=0 CARGO_PROFILE_TEST_DEBUG=0 CARGO_INCREMENTAL=0
 # 2. baseline with patch (no demo)
-if [ -z "${SEED_SKIP_BASELINE:-}" ]; then
+if [ -z "${SEED_SKIP_BASELINE:-}${SEED_DEMO_ONLY:-}" ]; then
   ( cd $V && cargo nextest run --workspace --no-fail-fast --tool-config-file pb:/w/lib/nextest.toml --profile pb --test-threads 8 --offline ) > $OUT/baseline_with_patch.log 2>&1
   SUM=$(grep -E "^\s+Summary" $OUT/baseline_with_patch.log | tail -1)
   res "baseline_with_patch: $SUM"
@@ -58,8 +62,9 @@ if [ -z "${SEED_SKIP_BASELINE:-}" ]; then
   # keep the log small: summary + failures only
   grep -E "Summary|FAIL|SIGABRT|SIGSEGV|TIMEOUT|error" $OUT/baseline_with_patch.log | head -100 > $OUT/baseline_with_patch.short.log; rm -f $OUT/baseline_with_patch.log
 fi
-# 3. demo with patch / without patch
+# 3. demo with patch / without patch (SEED/demo is recreated in the verify worktree because some demo commands copy from it)
 (cd $OUT/demo_tree && find . -type f | sed 's#^\./##') | while read -r f; do mkdir -p $V/$(dirname $f); cp $OUT/demo_tree/$f $V/$f; done
+mkdir -p $V/SEED/demo; cp -r $OUT/demo_src/. $V/SEED/demo/ 2>/dev/null
 DEMO_CMD=$(python3 -c "import json;print(json.load(open('$OUT/meta.json')).get('demo_cmd',''))" 2>/dev/null | sed "s#$ORIG_SW#$V#g")
 res "demo_cmd=$DEMO_CMD"
 if [ -n "$DEMO_CMD" ]; then
@@ -70,6 +75,8 @@ if [ -n "$DEMO_CMD" ]; then
   for l in demo_with_patch demo_without_patch; do tail -c 6000 $OUT/$l.log > $OUT/$l.tail.log; rm -f $OUT/$l.log; done
 fi
 (cd $OUT/demo_tree && find . -type f | sed 's#^\./##') | while read -r f; do rm -f $V/$f; done
+git -C $V clean -fdq -e target -e .verif-harness -e .verif-target -e .verif-out
+[ -n "${SEED_DEMO_ONLY:-}" ] && { git -C $V checkout -q -- .; exit 0; }
 unset CARGO_TARGET_DIR CARGO_PROFILE_DEV_DEBUG CARGO_PROFILE_TEST_DEBUG CARGO_INCREMENTAL
 # 4. our checks against the patched tree
 for c in ${CHECKS//,/ }; do
